@@ -1,4 +1,313 @@
-#ifndef CFG_PROF_userwins_H
-#define CFG_PROF_userwins_H
-static void prof_userwins(vh_rng_t *r, const vh_args_t *a){(void)r;(void)a;}
+/* cfg_prof_userwins.h - profile `userwins` (C16): every setting the application supplied
+ * explicitly (option bit with an explicit value, or a setter call) keeps its value whatever
+ * resolv.conf / nsswitch.conf / RES_OPTIONS / LOCALDOMAIN / the kernel hostname say - after
+ * ares_init_options() and after every awaited ares_reinit() under a changed system
+ * configuration.
+ *
+ * Two oracles per stage: (direct) scalar options equal the values passed in; (differential) each
+ * explicitly set field equals its value in a reference channel built from the same options and
+ * setter calls under an EMPTY system configuration (no files, no environment, undotted
+ * hostname), which takes care of list normalisation (duplicates, ARES_FLAG_PRIMARY, ports). */
+#ifndef CFG_PROF_USERWINS_H
+#define CFG_PROF_USERWINS_H
+
+typedef struct {
+  int       have_servers, how, nset;
+  cfg_srv_t set[U_MAXSRV];
+  char     *csv; /* exact text used for both runs (how <= 1) */
+  int       have_sortlist;
+  char     *sortlist;
+} uw_setters_t;
+
+static void uw_apply_setters(ares_channel_t *ch, const uw_setters_t *st, int *violated)
+{
+  int rc;
+  if (st->have_servers) {
+    if (st->how == 0) {
+      rc = ares_set_servers_csv(ch, st->csv);
+    } else if (st->how == 1) {
+      rc = ares_set_servers_ports_csv(ch, st->csv);
+    } else {
+      rc = apply_server_set(NULL, ch, st->set, st->nset, st->how, NULL);
+    }
+    if (rc != ARES_SUCCESS) {
+      vh_violation("cfg16:setter:servers:rejected-valid", "how=%d rc=%d text=\"%s\"", st->how, rc,
+                   st->csv ? st->csv : "(nodes)");
+      (*violated)++;
+    }
+  }
+  if (st->have_sortlist) {
+    rc = ares_set_sortlist(ch, st->sortlist);
+    if (rc != ARES_SUCCESS) {
+      vh_violation("cfg16:setter:sortlist:rejected-valid", "rc=%d for \"%s\"", rc, st->sortlist);
+      (*violated)++;
+    }
+  }
+}
+
+static const struct {
+  unsigned    bit;
+  const char *field;
+} uw_fields[] = {
+  { ARES_OPT_FLAGS,                      "i.flags"           },
+  { ARES_OPT_TIMEOUTMS,                  "i.timeout"         },
+  { ARES_OPT_TRIES,                      "i.tries"           },
+  { ARES_OPT_NDOTS,                      "i.ndots"           },
+  { ARES_OPT_MAXTIMEOUTMS,               "i.maxtimeout"      },
+  { ARES_OPT_ROTATE | ARES_OPT_NOROTATE, "i.rotate"          },
+  { ARES_OPT_UDP_PORT,                   "i.udp_port"        },
+  { ARES_OPT_TCP_PORT,                   "i.tcp_port"        },
+  { ARES_OPT_SOCK_SNDBUF,                "i.sndbuf"          },
+  { ARES_OPT_SOCK_RCVBUF,                "i.rcvbuf"          },
+  { ARES_OPT_EDNSPSZ,                    "i.ednspsz"         },
+  { ARES_OPT_SERVERS,                    "i.servers"         },
+  { ARES_OPT_DOMAINS,                    "i.domains"         },
+  { ARES_OPT_LOOKUPS,                    "i.lookups"         },
+  { ARES_OPT_SORTLIST,                   "i.sortlist"        },
+  { ARES_OPT_RESOLVCONF,                 "i.resolvconf_path" },
+  { ARES_OPT_HOSTS_FILE,                 "i.hosts_path"      },
+  { ARES_OPT_UDP_MAX_QUERIES,            "i.udp_max_queries" },
+  { ARES_OPT_QUERY_CACHE,                "i.qcache_max_ttl"  },
+  { ARES_OPT_SERVER_FAILOVER,            "i.retry_chance"    },
+  { ARES_OPT_SERVER_FAILOVER,            "i.retry_delay"     },
+  { ARES_OPT_SOCK_STATE_CB,              "i.sock_state_cb"   },
+};
+
+/* direct comparison of scalar options with what was passed in */
+static int uw_direct(const cfg_uopts_t *u, const cfg_eff_t *e, const char *stage, const char *uo,
+                     const char *w, unsigned *reported)
+{
+  char        exp[64], key[128];
+  const char *f = NULL;
+  int         nv = 0;
+#define CHK(bit, field, fmt, val)                                                              \
+  if (u->eff_mask & (bit)) {                                                                   \
+    snprintf(exp, sizeof(exp), fmt, val);                                                      \
+    f = field;                                                                                 \
+    CNT("userwins_field_evaluations");                                                         \
+    if (strcmp(exp, cfg_eff_get(e, f)) != 0) {                                                 \
+      const char *fn = f;                                                                      \
+      if ((bit) == ARES_OPT_FLAGS &&                                                           \
+          ((unsigned)strtoul(exp, NULL, 16) ^ (unsigned)strtoul(cfg_eff_get(e, f), NULL, 16)) == \
+            ARES_FLAG_USEVC) {                                                                 \
+        fn = "i.flags(usevc)";                                                                 \
+      }                                                                                        \
+      *reported |= (bit);                                                                      \
+      snprintf(key, sizeof(key), "cfg16:userwins:%s:%s", fn, stage);                           \
+      vh_violation(key, "application set %s, effective %s | %s | %s", exp, cfg_eff_get(e, f), uo, \
+                   w);                                                                         \
+      nv++;                                                                                    \
+    }                                                                                          \
+  }
+  CHK(ARES_OPT_FLAGS, "i.flags", "0x%x", (unsigned)u->o.flags)
+  CHK(ARES_OPT_TIMEOUTMS, "i.timeout", "%u", u->expect_timeout_ms)
+  CHK(ARES_OPT_TRIES, "i.tries", "%d", u->o.tries)
+  CHK(ARES_OPT_NDOTS, "i.ndots", "%d", u->o.ndots)
+  CHK(ARES_OPT_MAXTIMEOUTMS, "i.maxtimeout", "%d", u->o.maxtimeout)
+  CHK(ARES_OPT_ROTATE, "i.rotate", "%d", 1)
+  CHK(ARES_OPT_NOROTATE, "i.rotate", "%d", 0)
+  CHK(ARES_OPT_UDP_PORT, "i.udp_port", "%u", (unsigned)u->o.udp_port)
+  CHK(ARES_OPT_TCP_PORT, "i.tcp_port", "%u", (unsigned)u->o.tcp_port)
+  CHK(ARES_OPT_SOCK_SNDBUF, "i.sndbuf", "%d", u->o.socket_send_buffer_size)
+  CHK(ARES_OPT_SOCK_RCVBUF, "i.rcvbuf", "%d", u->o.socket_receive_buffer_size)
+  CHK(ARES_OPT_EDNSPSZ, "i.ednspsz", "%d", u->o.ednspsz)
+  CHK(ARES_OPT_LOOKUPS, "i.lookups", "%s", u->o.lookups)
+  CHK(ARES_OPT_UDP_MAX_QUERIES, "i.udp_max_queries", "%d", u->o.udp_max_queries)
+  CHK(ARES_OPT_QUERY_CACHE, "i.qcache_max_ttl", "%u", u->o.qcache_max_ttl)
+  CHK(ARES_OPT_SERVER_FAILOVER, "i.retry_chance", "%u", (unsigned)u->o.server_failover_opts.retry_chance)
+  CHK(ARES_OPT_SERVER_FAILOVER, "i.retry_delay", "%zu", u->o.server_failover_opts.retry_delay)
+#undef CHK
+  return nv;
+}
+
+/* differential comparison against the reference channel */
+static int uw_diff(unsigned user_bits, const cfg_uopts_t *u, const cfg_eff_t *ref, const cfg_eff_t *e,
+                   const char *stage, const char *uo, const char *w, unsigned already)
+{
+  size_t k;
+  int    nv = 0;
+  for (k = 0; k < sizeof(uw_fields) / sizeof(uw_fields[0]); k++) {
+    const char *a, *b;
+    if (!(user_bits & uw_fields[k].bit) || (already & uw_fields[k].bit)) {
+      continue;
+    }
+    a = cfg_eff_get(ref, uw_fields[k].field);
+    b = cfg_eff_get(e, uw_fields[k].field);
+    CNT("userwins_field_evaluations");
+    if (a == NULL || b == NULL || strcmp(a, b) != 0) {
+      char        key[160];
+      const char *fname = uw_fields[k].field;
+      if (!strcmp(fname, "i.domains") && !u->use_null && (u->mask & ARES_OPT_DOMAINS) &&
+          u->o.ndomains == 0) {
+        fname = "i.domains(empty-list)";
+      }
+      if (!strcmp(fname, "i.flags") && a && b) {
+        /* name the bit(s) that changed: keeps the use-vc report apart from anything else */
+        unsigned fa = (unsigned)strtoul(a, NULL, 16), fb = (unsigned)strtoul(b, NULL, 16);
+        if ((fa ^ fb) == ARES_FLAG_USEVC) {
+          fname = "i.flags(usevc)";
+        }
+      }
+      snprintf(key, sizeof(key), "cfg16:userwins:%s:%s", fname, stage);
+      vh_violation(key, "without system configuration %.300s, with it %.300s | %s | %s", a ? a : "-",
+                   b ? b : "-", uo, w);
+      nv++;
+    }
+  }
+  return nv;
+}
+
+static void prof_userwins(vh_rng_t *r, const vh_args_t *a)
+{
+  cfg_sys_t       ref_sys, s[3];
+  cfg_uopts_t     u;
+  uw_setters_t    st;
+  ares_channel_t *ch = NULL;
+  cfg_eff_t       e_ref, e;
+  int             rc, violated = 0, nreinit, i;
+  unsigned        dirs = 0, sclass = 0, user_bits;
+  int             ll_ok = (int)vh_opt_int(a, "ll", 0);
+  char           *uo, *w;
+  int             ref_ok = 0;
+
+  cfg_prop = "cfg16";
+  memset(&st, 0, sizeof(st));
+  gen_uopts(r, &u, vh_chance(r, 1, 3) ? 1 : 2, vh_chance(r, 1, 2) ? 3 : 4, U_ALLOW_PATHS);
+  if (u.use_null) {
+    u.use_null = 0; /* no application settings: nothing to assert */
+  }
+  if (vh_chance(r, 1, 3)) {
+    st.have_servers = 1;
+    st.how          = (int)vh_below(r, 4);
+    st.nset         = gen_server_set(r, st.set, 4, ll_ok, &sclass);
+    if (st.how <= 1) {
+      cfg_bb_t bb = { 0 };
+      srv_to_csv(r, st.set, st.nset, &bb);
+      st.csv = bb.b;
+    }
+  }
+  if (vh_chance(r, 1, 4)) {
+    cfg_bb_t bb = { 0 };
+    cfg_bb_add(&bb, "", 0);
+    gen_sortlist_value(r, &bb);
+    st.have_sortlist = 1;
+    st.sortlist      = bb.b;
+  }
+  user_bits = (unsigned)u.eff_mask;
+  if (st.have_servers) {
+    user_bits |= ARES_OPT_SERVERS;
+  }
+  if (st.have_sortlist) {
+    user_bits |= ARES_OPT_SORTLIST;
+  }
+
+  cfg_sys_init(&ref_sys);
+  nreinit = vh_range(r, 1, 2);
+  for (i = 0; i < 3; i++) {
+    cfg_sys_init(&s[i]);
+    dirs |= gen_sysconfig(r, &s[i], &u, 1);
+    /* decoy content at the default paths when the application redirected them */
+    if (u.eff_mask & ARES_OPT_RESOLVCONF) {
+      cfg_sys_set_file(&s[i], CF_RESOLV, "nameserver 203.0.113.99\noptions ndots:13 rotate\n", 47);
+    }
+  }
+  uo = render_uopts(&u);
+
+  /* ---- reference: same application input, empty system configuration */
+  cfg_sys_apply(&ref_sys);
+  cfg_lib_begin();
+  rc = cfg_init(&ch, &u);
+  if (rc == ARES_SUCCESS) {
+    uw_apply_setters(ch, &st, &violated);
+    cfg_eff_read(ch, &e_ref, 0);
+    ref_ok = 1;
+    w      = strdup("(empty system configuration)");
+    {
+      unsigned rep = 0;
+      violated += uw_direct(&u, &e_ref, "reference", uo, w, &rep);
+    }
+    free(w);
+    ares_destroy(ch);
+    ch = NULL;
+  } else {
+    CNT("userwins_ref_init_error");
+  }
+  cfg_lib_end("after ares_destroy + ares_library_cleanup", &ref_sys);
+
+  /* ---- under generated system configuration */
+  if (ref_ok) {
+    cfg_sys_apply(&s[0]);
+    cfg_lib_begin();
+    rc = cfg_init(&ch, &u);
+    w  = cfg_witness(&s[0]);
+    if (vh_verbose) {
+      vh_trace("options: %s", uo);
+      vh_trace("environment: %s", w);
+    }
+    if (rc != ARES_SUCCESS) {
+      vh_violation("cfg16:userwins:init-status", "rc=0 without system configuration, %d with | %s | %s",
+                   rc, uo, w);
+      violated++;
+    } else {
+      uw_apply_setters(ch, &st, &violated);
+      cfg_eff_read(ch, &e, 0);
+      CNT("userwins_stage_evaluations");
+      {
+        unsigned rep = 0;
+        violated += uw_direct(&u, &e, "init", uo, w, &rep);
+        violated += uw_diff(user_bits, &u, &e_ref, &e, "init", uo, w, rep);
+      }
+      cfg_eff_free(&e);
+      for (i = 1; i <= nreinit; i++) {
+        free(w);
+        cfg_sys_apply(&s[i]);
+        w = cfg_witness(&s[i]);
+        if (vh_verbose) {
+          vh_trace("reinit %d environment: %s", i, w);
+        }
+        cfg_reinit_await(ch);
+        cfg_eff_read(ch, &e, 0);
+        CNT("userwins_stage_evaluations");
+        {
+          unsigned rep = 0;
+          violated += uw_direct(&u, &e, "reinit", uo, w, &rep);
+          violated += uw_diff(user_bits, &u, &e_ref, &e, "reinit", uo, w, rep);
+        }
+        cfg_eff_free(&e);
+      }
+      ares_destroy(ch);
+      ch = NULL;
+    }
+    free(w);
+    cfg_lib_end("after ares_destroy + ares_library_cleanup", &s[0]);
+    cfg_case_nontrivial = rt_popcount((unsigned)u.mask) >= 3 || e_ref.nservers >= 2;
+    if (vh_want_sample() && cfg_case_nontrivial) {
+      vh_sb_t sb = { 0 };
+      char   *ws = cfg_witness(&s[0]);
+      vh_sb_printf(&sb, "{\"profile\":\"userwins\",\"options\":");
+      vh_sb_jstr(&sb, uo, strlen(uo));
+      vh_sb_printf(&sb, ",\"reinits\":%d,\"sysconfig\":", nreinit);
+      vh_sb_jstr(&sb, ws, strlen(ws) > 500 ? 500 : strlen(ws));
+      vh_sb_printf(&sb, "}");
+      vh_sample(sb.b);
+      free(sb.b);
+      free(ws);
+    }
+    cfg_eff_free(&e_ref);
+  }
+
+  cfg_case_fp = vh_fnv_u64(cfg_case_fp, (uint64_t)(unsigned)u.mask);
+  cfg_case_fp = vh_fnv_u64(cfg_case_fp, sclass);
+  cfg_case_fp = vh_fnv_u64(cfg_case_fp, (uint64_t)(st.have_servers ? st.how + 1 : 0));
+  cfg_case_fp = vh_fnv_u64(cfg_case_fp, dirs);
+  (void)violated;
+  free(uo);
+  free(st.csv);
+  free(st.sortlist);
+  cfg_sys_free(&ref_sys);
+  for (i = 0; i < 3; i++) {
+    cfg_sys_free(&s[i]);
+  }
+}
+
 #endif
